@@ -179,7 +179,7 @@ fn scenario_for(kind: Kind) -> BoxedStrategy<Scenario> {
     (
         params_strategy(),
         t0_strategy(),
-        proptest::collection::vec(ev_strategy_with([6, 2, 1, 1], prop_oneof![9 => dt_pos(), 1 => Just(0i64)].boxed(), gen::mostly_moderate_any_finite()), 0..=48),
+        gen::with_runs(proptest::collection::vec(ev_strategy_with([6, 2, 1, 1], prop_oneof![9 => dt_pos(), 1 => Just(0i64)].boxed(), gen::mostly_moderate_any_finite()), 0..=48).boxed(), 40, 48),
         proptest::collection::vec(0u8..4, 1..=8),
         proptest::collection::vec(prop_oneof![4 => Just(CondEv::F), 4 => Just(CondEv::T), 1 => Just(CondEv::A), 1 => Just(CondEv::E(1)), 1 => Just(CondEv::E(2))], 1..=48),
     )
